@@ -5,6 +5,7 @@ package c06
 
 import (
 	"fmt"
+	"math/big"
 	"strings"
 
 	"lvharness/appsim"
@@ -34,7 +35,7 @@ type exec struct{ c appsim.ChainExec }
 
 func (P) NewExec() hx.Executor { return &exec{} }
 
-func (e *exec) Exec(op string) string { return e.c.Exec(op) }
+func (e *exec) Exec(op string) string { return e.c.ExecLedger(op) }
 
 func (P) Monitor(c *hx.CaseRun) []hx.Failure {
 	var fs []hx.Failure
@@ -42,11 +43,13 @@ func (P) Monitor(c *hx.CaseRun) []hx.Failure {
 	claim := false
 	allFailed, prevBal := false, ""
 	xm := newXMon()
+	sm := &sysMon{}
 	subUnit := map[string]string{} // tx id -> the `ain` op whose account input is zero or not a whole number of units
 	for i, op := range c.Ops {
 		ans := c.Impl[i]
 		toks_ := hx.Tokens(op)
 		fs = append(fs, xm.step(op, toks_, ans)...)
+		fs = append(fs, sm.step(op, toks_, ans)...)
 		if v, ok := hx.Arg(toks_, "claim"); ok && v != "" {
 			claim = true
 		}
@@ -300,6 +303,9 @@ func (P) Generate(g *hx.Gen) {
 	for k, ns := 0, g.Pick(30, 200); k < ns; k++ {
 		g.Case("account inputs that are not a whole number of commitment units", WithReceipts(SubUnitCase(g)), true)
 	}
+	for k, ns := 0, g.Pick(4, 16); k < ns; k++ {
+		g.Case("real genesis: system contracts, elections, awards", WithReceipts(SysCase(g)), true)
+	}
 	g.Case("corpus: creations, value-moving contract, token calls, refused shapes", WithReceipts(ContractCorpus), true)
 	for k, nc := 0, g.Pick(50, 400); k < nc; k++ {
 		g.Case("contracts: creation / value moved by contracts / token value / refused shapes", WithReceipts(ContractCase(g)), true)
@@ -452,7 +458,7 @@ func WithReceipts(ops []string) []string {
 		if id, ok := hx.Arg(at, "id"); ok && (strings.HasPrefix(op, "call") || strings.HasPrefix(op, "create") || strings.HasPrefix(op, "mcall") || strings.HasPrefix(op, "xferx")) {
 			opOf[id] = len(out) - 1
 		}
-		if (strings.HasPrefix(op, "block") || strings.HasPrefix(op, "forceblock")) && strings.HasPrefix(ans, "h=") {
+		if (strings.HasPrefix(op, "block") || strings.HasPrefix(op, "forceblock") || strings.HasPrefix(op, "sblk")) && strings.HasPrefix(ans, "h=") {
 			h, _ := hx.Arg(at, "h")
 			var hh uint64
 			fmt.Sscan(h, &hh)
@@ -468,6 +474,10 @@ func WithReceipts(ops []string) []string {
 					out[k] += fmt.Sprintf(" used=%s st=%s", gs[i], ss[i])
 				}
 			}
+			if strings.HasPrefix(op, "sblk") {
+				// what the block paid the award payees travels in the op (the model does not execute the foundation contract)
+				out = append(out, ex.AwardsOp())
+			}
 		}
 	}
 	hx.SafeExec(execOf(&ex), "case")
@@ -476,7 +486,7 @@ func WithReceipts(ops []string) []string {
 
 type execRef struct{ c *appsim.ChainExec }
 
-func (e execRef) Exec(op string) string      { return e.c.Exec(op) }
+func (e execRef) Exec(op string) string      { return e.c.ExecLedger(op) }
 func execOf(c *appsim.ChainExec) hx.Executor { return execRef{c} }
 
 // PayDeadContractInSameBlock switches on the cases in which a transaction pays a contract that an EARLIER transaction of the same
@@ -980,4 +990,222 @@ func SubUnitCase(g *hx.Gen) []string {
 	add("block")
 	add("bal")
 	return ops
+}
+
+// SysCase: a chain of 22..26 blocks on the REAL genesis (eight WASM system contracts, four candidates with pledges and
+// supporters, vote period 1: an election every block, awards at heights 10 and 20; the application has the node's
+// SetPoceeds / AllocAward handles), every block proposed with a candidate's coinbase and carrying fee-paying transactions of
+// every kind the other streams generate: transfers, token transfers, account->confidential, confidential->confidential,
+// confidential->account, contract creations, calls of the test contracts (value kept, forwarded, transferred, reverted),
+// token-carrying calls.  Observed after every block: the WHOLE-STATE supply (every account of the state + the pool), the
+// foundation, the award payees, the block's balance records.  (No SELFDESTRUCT here: the supply must be exactly constant.)
+func SysCase(g *hx.Gen) []string {
+	r := g.Rng
+	ops := []string{hx.CaseOp("sys"), fmt.Sprintf("syschain trie=1 accts=3 wallets=2 seed=%d code=2 rec=1 cands=4 vp=1", 1+r.Intn(1000)), "sbal"}
+	add := func(f string, a ...interface{}) { ops = append(ops, fmt.Sprintf(f, a...)) }
+	nonce := []int{0, 0, 0}
+	owned := 0 // outputs wallet 0 has received (funding goes to wallet 0; spends pay wallet 1 / accounts; change returns to wallet 0)
+	spent := map[int]bool{}
+	blocks := 22 + r.Intn(5)
+	for h := 1; h <= blocks; h++ {
+		ntx := 1 + r.Intn(3) // every block carries fees (an award block without fees of its own still pays out the earlier ones)
+		newOuts := 0
+		for t := 0; t < ntx; t++ {
+			from := r.Intn(3)
+			switch k := r.Intn(12); {
+			case k < 2:
+				add("xfer from=%d to=%d amount=%d nonce=%d", from, r.Intn(3), 1+r.Intn(100000), nonce[from])
+				nonce[from]++
+			case k == 2:
+				add("xfertok from=%d to=%d amount=%d nonce=%d", from, r.Intn(3), 1+r.Intn(1000), nonce[from])
+				nonce[from]++
+			case k == 3 || (k < 6 && owned == 0):
+				add("ain from=%d w=0 amount=%d nonce=%d", from, 30000000000+r.Intn(100000)*10000, nonce[from])
+				nonce[from]++
+				newOuts++
+				g.Count("sys:ain")
+			case k == 4:
+				in := r.Intn(owned)
+				if !spent[in] {
+					add("uu w=0 in=%d to=1 amount=%d", in, 1+r.Intn(5000000000))
+					spent[in] = true
+					newOuts++ // the change
+					g.Count("sys:uu")
+				}
+			case k == 5:
+				in := r.Intn(owned)
+				if !spent[in] {
+					add("ua w=0 in=%d to=%d amount=%d", in, r.Intn(3), 1+r.Intn(5000000000))
+					spent[in] = true
+					newOuts++
+					g.Count("sys:ua")
+				}
+			case k == 6:
+				kind := []string{"ok", "empty", "revert", "invalid"}[r.Intn(4)]
+				add("create from=%d kind=%s nonce=%d value=%d gas=3000000", from, kind, nonce[from], []int{0, 10, 500}[r.Intn(3)])
+				nonce[from]++
+				g.Count("sys:create")
+			case k < 9:
+				m := []int{appsim.MvKeep, appsim.MvForward, appsim.MvTransfer, appsim.MvFwdRevert, appsim.MvHalf, appsim.MvSweep}[r.Intn(6)]
+				add("mcall from=%d nonce=%d m=%d to=a%d value=%d gas=3000000", from, nonce[from], m, r.Intn(3), 2*r.Intn(5000))
+				nonce[from]++
+				g.Count("sys:mover")
+			case k == 9:
+				add("calltok from=%d nonce=%d c=%d value=%d", from, nonce[from], []int{3, 255}[r.Intn(2)], r.Intn(1000))
+				nonce[from]++
+				g.Count("sys:token-call")
+			default:
+				c := r.Intn(40)
+				if r.Intn(3) == 0 {
+					c = 255
+				}
+				add("call from=%d c=%d nonce=%d", from, c, nonce[from])
+				nonce[from]++
+				g.Count("sys:call")
+			}
+		}
+		add("sblk cb=%d", r.Intn(4))
+		owned += newOuts
+		add("sbal")
+		add("srecs h=%d", h)
+		if h%10 == 0 {
+			g.Count("sys:award-block")
+		}
+	}
+	add("nonces")
+	return ops
+}
+
+// sysMon: monitors of the real-genesis stream, on the implementation's answers (all amounts in wei unless said otherwise).
+type sysMon struct {
+	have                   bool
+	supply, tok            string
+	fw                     *big.Int
+	cb, sup, accts         []*big.Int
+	prevFw                 *big.Int
+	prevCb, prevSup, prevA []*big.Int
+	fees                   *big.Int // what the transactions of the block last committed paid: sum of receipt gas x price
+	awards                 *big.Int // what that block paid the award payees
+	awardBlock             bool
+}
+
+func bigs(s string, scale int64) []*big.Int {
+	var out []*big.Int
+	for _, x := range hx.SplitComma(s) {
+		v, ok := new(big.Int).SetString(x, 10)
+		if !ok {
+			v = new(big.Int)
+		}
+		out = append(out, v.Mul(v, big.NewInt(scale)))
+	}
+	return out
+}
+
+func sumBig(xs []*big.Int) *big.Int {
+	t := new(big.Int)
+	for _, x := range xs {
+		t.Add(t, x)
+	}
+	return t
+}
+
+func (m *sysMon) step(op string, toks []string, ans string) []hx.Failure {
+	var fs []hx.Failure
+	a := hx.Tokens(ans)
+	switch toks[0] {
+	case "case":
+		*m = sysMon{}
+	case "receipts":
+		m.fees = new(big.Int)
+		if ans == "ok" { // the implementation confirms the receipts the line carries
+			gv, _ := hx.Arg(toks, "gas")
+			m.fees = sumBig(bigs(gv, 100000000000))
+		}
+	case "awards":
+		m.awards = new(big.Int)
+		m.awardBlock = false
+		if ans == "ok" {
+			c, _ := hx.Arg(toks, "cb")
+			s, _ := hx.Arg(toks, "sup")
+			m.awards = new(big.Int).Add(sumBig(bigs(c, 1)), sumBig(bigs(s, 1)))
+			m.awardBlock = m.awards.Sign() != 0
+		}
+	case "sblk":
+		m.fees, m.awards, m.awardBlock = nil, nil, false
+	case "sbal":
+		if !strings.HasPrefix(ans, "a=") {
+			return fs
+		}
+		s, _ := hx.Arg(a, "supply")
+		t, _ := hx.Arg(a, "toksupply")
+		fwS, _ := hx.Arg(a, "fw")
+		cbS, _ := hx.Arg(a, "cb")
+		supS, _ := hx.Arg(a, "sup")
+		aS, _ := hx.Arg(a, "a")
+		fw, _ := new(big.Int).SetString(fwS, 10)
+		if fw == nil {
+			fw = new(big.Int)
+		}
+		m.prevFw, m.prevCb, m.prevSup, m.prevA = m.fw, m.cb, m.sup, m.accts
+		m.fw, m.cb, m.sup, m.accts = fw, bigs(cbS, 1), bigs(supS, 1), bigs(aS, 10000000000)
+		if m.have {
+			if s != m.supply {
+				cls := "native-supply-changed"
+				if m.awardBlock {
+					cls = "award-changes-supply"
+				}
+				fs = append(fs, hx.Failure{Monitor: "native_supply_conserved", Class: cls, Site: "app/app.go:processBlock",
+					Msg: fmt.Sprintf("the native supply over EVERY account of the committed state plus the confidential pool changed from %s to %s wei (award block: %v; awards are to be paid out of the foundation contract's balance)", m.supply, s, m.awardBlock)})
+			}
+			if t != m.tok {
+				fs = append(fs, hx.Failure{Monitor: "token_supply_conserved", Class: "token-supply-changed", Site: "app/state_transition.go:transitOutputs",
+					Msg: fmt.Sprintf("the token supply over every account of the committed state changed from %s to %s units", m.tok, t)})
+			}
+			if m.fees != nil && m.awards != nil && m.prevFw != nil {
+				// what the block's transactions paid = what the foundation contract received: its balance change + what it paid out
+				got := new(big.Int).Add(new(big.Int).Sub(m.fw, m.prevFw), m.awards)
+				if got.Cmp(m.fees) != 0 {
+					fs = append(fs, hx.Failure{Monitor: "fees_debited_equal_fees_credited", Class: "fees-paid-differ-from-foundation-credit", Site: "app/app.go:processBlock",
+						Msg: fmt.Sprintf("the block's receipts amount to %s wei of fees; the foundation contract's balance changed by %s and it paid %s in awards: it received %s", m.fees, new(big.Int).Sub(m.fw, m.prevFw), m.awards, got)})
+				}
+			}
+		}
+		m.supply, m.tok, m.have = s, t, true
+	case "srecs":
+		if !strings.HasPrefix(ans, "a=") || m.prevFw == nil {
+			return fs
+		}
+		chk := func(name string, rec string, now, old []*big.Int) {
+			rs := bigs(rec, 1)
+			for i := range now {
+				d := new(big.Int).Set(now[i])
+				if i < len(old) {
+					d.Sub(d, old[i])
+				}
+				r := new(big.Int)
+				if i < len(rs) {
+					r = rs[i]
+				}
+				if d.Cmp(r) != 0 {
+					fs = append(fs, hx.Failure{Monitor: "audit_log_matches_state", Class: "state-change-differs-from-records", Site: "app/app.go:AllocAward",
+						Msg: fmt.Sprintf("%s[%d] changed by %s wei over the block, the block's balance records net to %s", name, i, d, r)})
+				}
+			}
+		}
+		fS, _ := hx.Arg(a, "f")
+		cS, _ := hx.Arg(a, "cb")
+		sS, _ := hx.Arg(a, "sup")
+		aS, _ := hx.Arg(a, "a")
+		chk("foundation", fS, []*big.Int{m.fw}, []*big.Int{m.prevFw})
+		chk("coinbase", cS, m.cb, m.prevCb)
+		chk("supporter", sS, m.sup, m.prevSup)
+		chk("account", aS, m.accts, m.prevA)
+		if u, _ := hx.Arg(a, "unk"); u != "0" {
+			fs = append(fs, hx.Failure{Monitor: "audit_log_matches_state", Class: "record-names-unobserved-address", Site: "types/balance_record.go", Msg: "records of an unobserved token: " + ans})
+		}
+		if mi, _ := hx.Arg(a, "mint"); mi != "0" {
+			fs = append(fs, hx.Failure{Monitor: "audit_log_matches_state", Class: "record-names-unobserved-address", Site: "types/balance_record.go", Msg: "value from / to nowhere in the records: " + ans})
+		}
+	}
+	return fs
 }
